@@ -256,7 +256,8 @@ theorem C05_asis_stale :
   the very same results (`readCompl`, `waitCompl`, `wakeCompl` in Lemmas/TcpGhost.lean). -/
 
 /-- `async_read_some`: after aborting whatever was pending, the handler is posted with
-    `readCompl` of the `readSome` result whose `rdEvOf` the ghost records -/
+    `readCompl` of the `readSome` result whose `rdEvOf` the ghost records — for `.ok d` the
+    completion's `data` field is `d` itself, the bytes appended to `delivered` -/
 theorem C05_ghost_read (n : NetSt) (name : String) (op : ReadOp) (s : TcpSock) (hs : n.tcp? name = some s) :
     postsOf (n.tcpAsyncRead name op).2
       = postsOf s.abortRecv.2 ++ readCompl op.h (s.readSome s.chan.isSome op.caps).2 :=
@@ -277,7 +278,7 @@ theorem C05_ghost_arrival (tp : TParams) (n : NetSt) (now : Int) (name : String)
     postsOf (n.tcpIncoming tp now name p).2
       = (match n.tcpPreWake name p with | some s1 => s1.wakeCompl tp | none => [])
     ∧ ∀ s1, n.tcpPreWake name p = some s1 →
-        (∀ d, s1.wakeRead tp = some (.data d) → ∃ h, s1.wakeCompl tp = [{ h := h, ec := .ok, extra := readExtra d }])
+        (∀ d, s1.wakeRead tp = some (.data d) → ∃ h, s1.wakeCompl tp = [{ h := h, ec := .ok, extra := readExtra d, data := d }])
         ∧ (∀ e, s1.wakeRead tp = some (.err e) → ∃ h x, s1.wakeCompl tp = [{ h := h, ec := e, extra := x }])
         ∧ (s1.wakeRead tp = none → ∀ c ∈ s1.wakeCompl tp, c.ec = .ok ∧ c.extra = "") :=
   ⟨tcpIncoming_posts tp n now name p hty, fun s1 _ => wakeRead_wakeCompl tp s1⟩
